@@ -141,6 +141,26 @@ impl<R, IO> Connection<R, IO> {
 //@spec
     ensures r.req == req, r.io == io,
 //@end
+//@extract file=actix-tls/src/connect/connection.rs item="impl<R, IO> Connection<R, IO> / fn into_parts" ret=r props=C19 name=connection::into_parts
+//@spec
+    ensures r.0 == self.io, r.1 == self.req,
+//@end
+//@extract file=actix-tls/src/connect/connection.rs item="impl<R, IO> Connection<R, IO> / fn replace_io" ret=r props=C19 name=connection::replace_io
+//@spec
+    ensures r.0 == self.io, r.1.io == io, r.1.req == self.req,    // [C19] the request travels on with the new stream
+//@end
+//@extract file=actix-tls/src/connect/connection.rs item="impl<R, IO> Connection<R, IO> / fn io_ref" ret=r props=C19 name=connection::io_ref
+//@spec
+    ensures *r == self.io,
+//@end
+//@extract file=actix-tls/src/connect/connection.rs item="impl<R, IO> Connection<R, IO> / fn io_mut" ret=r props=C19 name=connection::io_mut
+//@spec
+    ensures *r == old(self).io, final(self).io == *final(r), final(self).req == old(self).req,
+//@end
+//@extract file=actix-tls/src/connect/connection.rs item="impl<R, IO> Connection<R, IO> / fn request" ret=r props=C19 name=connection::request
+//@spec
+    ensures *r == self.req,
+//@end
 }
 
 impl<R: Host> ConnectInfo<R> {
@@ -331,11 +351,14 @@ pub struct Str { _p: () }
 #[verifier::external_body]
 pub struct AddrParseError { _p: () }
 /// the request's host is an IP literal (std's FromStr for IpAddr): an uninterpreted fact about the host string
+/// std::str::FromStr as far as `str::parse::<F>()` needs it: what a string parses to is a function of the string
+pub trait FromStrLike: Sized { type Err; spec fn of_str(s: &Str) -> Option<Self>; }
+impl FromStrLike for IpAddr { type Err = AddrParseError; open spec fn of_str(s: &Str) -> Option<IpAddr> { s.ip_literal() } }
 impl Str {
     pub uninterp spec fn ip_literal(&self) -> Option<IpAddr>;
     #[verifier::external_body]
-    pub fn parse(&self) -> (r: Result<IpAddr, AddrParseError>)
-        ensures r is Ok <==> self.ip_literal() is Some, r matches Ok(ip) ==> self.ip_literal() == Some(ip),
+    pub fn parse<F: FromStrLike>(&self) -> (r: Result<F, F::Err>)
+        ensures r is Ok <==> F::of_str(self) is Some, r matches Ok(v) ==> F::of_str(self) == Some(v),
     { unimplemented!() }
 }
 impl SocketAddr {
